@@ -16,3 +16,9 @@ namespace pika {
     PIKA_EXPORT char const PIKA_CHECK_VERSION[] = PIKA_PP_STRINGIZE(PIKA_CHECK_VERSION);
     PIKA_EXPORT char const PIKA_CHECK_BOOST_VERSION[] = PIKA_PP_STRINGIZE(PIKA_CHECK_BOOST_VERSION);
 }    // namespace pika
+
+#if defined(PIKA_VERIF)
+namespace pika::verif {
+    std::atomic<hook_t> hook{nullptr};
+}
+#endif
